@@ -6,6 +6,7 @@ import os
 import random
 import re
 import shutil
+import subprocess
 import time
 
 import gen_seeds
@@ -76,6 +77,8 @@ def mc_uci(prop, tier, cov):
         cov['transitions'] = cov.get('transitions', 0) + r['generated']
         cov['mc']['Uci cmds=%d searches=%d' % (c['cmds'], c['searches'])] = {'distinct_states': r['distinct'], 'generated': r['generated'],
                                                                               'properties': 'safety invariants + liveness GoAnswered/ReadyLive/EofTerminates under WF'}
+    if prop == 'C10':
+        prove_uci_inductive(cov)
     # legacy switches: each must be caught by the model
     def leg(sw):
         c = dict(base, cmds=3, searches=2, vocab=VOCAB_FULL)
@@ -87,6 +90,46 @@ def mc_uci(prop, tier, cov):
                 raise ToolError('model sensitivity: legacy switch %s produced no counterexample' % sw)
             m = re.search(r'(Invariant|Temporal properties|property) ?(\w*) (is|were) violated', r['out'])
             cov['mc']['legacy ' + sw] = 'counterexample found: ' + (m.group(0) if m else 'violation')
+
+
+def apalache(args, cwd, timeout=900):
+    p = subprocess.run(['apalache-mc', 'check'] + args, cwd=cwd, stdout=subprocess.PIPE, stderr=subprocess.STDOUT, text=True, timeout=timeout)
+    m = re.search(r'The outcome is: (\w+)', p.stdout)
+    return (m.group(1) if m else 'Unknown'), p.stdout
+
+
+def prove_uci_inductive(cov):
+    """Unbounded safety of the repaired protocol: the inductive invariant of UciInd.tla discharged by Apalache
+    (base case, inductive step, invariant => properties), plus the sensitivity runs: with the pinned code's
+    store of true at search entry, or with bestmove printed before the flag is cleared, the step must fail."""
+    d = fresh_dir('apalache-%d' % os.getpid())
+    src = open(os.path.join(SPEC, 'UciInd.tla')).read()
+    open(os.path.join(d, 'UciInd.tla'), 'w').write(src)
+    leg1 = src.replace('MODULE UciInd', 'MODULE UciIndL1').replace(
+        '(spc = "entry" /\\ spc\' = "work" /\\ UNCHANGED <<flag, answered>>)',
+        '(spc = "entry" /\\ spc\' = "work" /\\ flag\' = TRUE /\\ UNCHANGED answered)')
+    leg2 = src.replace('MODULE UciInd', 'MODULE UciIndL2').replace(
+        '(spc = "post" /\\ spc\' = "cleared" /\\ flag\' = FALSE /\\ UNCHANGED answered)',
+        '(spc = "post" /\\ spc\' = "cleared" /\\ UNCHANGED <<flag, answered>>)')
+    if leg1 == src.replace('MODULE UciInd', 'MODULE UciIndL1') or leg2 == src.replace('MODULE UciInd', 'MODULE UciIndL2'):
+        raise ToolError('UciInd.tla: legacy variants could not be derived (text changed)')
+    open(os.path.join(d, 'UciIndL1.tla'), 'w').write(leg1)
+    open(os.path.join(d, 'UciIndL2.tla'), 'w').write(leg2)
+    runs = [('base case  Init => IndInv', ['--init=Init', '--inv=IndInv', '--length=0', 'UciInd.tla'], 'NoError'),
+            ('inductive step  IndInv /\\ Next => IndInv\'', ['--init=IndInv', '--inv=IndInv', '--length=1', 'UciInd.tla'], 'NoError'),
+            ('IndInv => Answered', ['--init=IndInv', '--inv=Answered', '--length=0', 'UciInd.tla'], 'NoError'),
+            ('legacy: flag stored true at search entry (step must fail)', ['--init=IndInv', '--inv=IndInv', '--length=1', 'UciIndL1.tla'], 'Error'),
+            ('legacy: flag not cleared before the answer (step must fail)', ['--init=IndInv', '--inv=IndInv', '--length=1', 'UciIndL2.tla'], 'Error')]
+    with cf.ThreadPoolExecutor(max_workers=5) as ex:
+        outs = list(ex.map(lambda r: apalache(r[1], d), runs))
+    res = {}
+    for (name, _, want), (got, out) in zip(runs, outs):
+        if got != want:
+            log(out[-2000:])
+            raise ToolError('Apalache: %s: expected %s, got %s' % (name, want, got))
+        res[name] = got
+    cov.setdefault('mc', {})['UciInd (Apalache 0.58, unbounded)'] = res
+    shutil.rmtree(d, ignore_errors=True)
 
 
 # ---------------------------------------------------------------------------------------------
